@@ -905,6 +905,33 @@ pub fn run(scn: &Scn, ctx: &Ctx, scratch: &Path) {
     if fired > 0 {
         ctx.borrow_mut().nontrivial = true;
     }
+    if p.accepted_faulty > 0 && p.accepted_other == 0 && scn.recv.md5_check && scn.sender.objects.iter().all(|o| o.md5) {
+        // every accepted faulty packet was an object packet of the session with an altered PAYLOAD only (same header,
+        // extensions, payload id): the worst it can do is make its object fail its MD5 / inflate check. The object is
+        // then rejected as a whole - and the complete retransmission of the valid session (twice: the carousel goes on)
+        // on the same TSI still delivers it - right away, without waiting for any timeout to clean up
+        ctx.borrow_mut().note("recovery:same-tsi-after-payload-corruption");
+        for _ in 0..2 {
+            for e in &sess.trace.pkts {
+                p.what = "retransmitted valid session".into();
+                p.push(&e.bytes.clone(), false);
+            }
+        }
+        for o in &sess.objs {
+            let (exact, _, _) = completes_exact(&monitor, o);
+            if exact == 0 {
+                violate(
+                    ctx,
+                    "C04/not-usable-after-faults",
+                    "same-tsi-after-payload-corruption",
+                    format!(
+                        "{} packets of the session with an altered payload were accepted (nothing else), the MD5 check is on: toi={} was not delivered by two complete retransmissions of the valid session on the same TSI",
+                        p.accepted_faulty, o.toi
+                    ),
+                );
+            }
+        }
+    }
     // cleanup after the timeouts have elapsed must work too
     p.t_us += 30_000_000;
     alloc::reset_marks();
@@ -957,33 +984,6 @@ pub fn run(scn: &Scn, ctx: &Ctx, scratch: &Path) {
                         format!("after the faulty traffic a valid session on a fresh TSI did not deliver toi={}", o.toi),
                     );
                 }
-            }
-        }
-    }
-    if !all_rejected && p.accepted_other == 0 && scn.recv.md5_check && scn.sender.objects.iter().all(|o| o.md5) {
-        // every accepted faulty packet was an object packet of the session with an altered PAYLOAD only (same header,
-        // extensions, payload id): the worst it can do is make its object fail its MD5 / inflate check. The object is
-        // then rejected as a whole - and the complete retransmission of the valid session (twice: the carousel goes on)
-        // on the same TSI still delivers it
-        ctx.borrow_mut().note("recovery:same-tsi-after-payload-corruption");
-        for _ in 0..2 {
-            for e in &sess.trace.pkts {
-                p.what = "retransmitted valid session".into();
-                p.push(&e.bytes.clone(), false);
-            }
-        }
-        for o in &sess.objs {
-            let (exact, _, _) = completes_exact(&monitor, o);
-            if exact == 0 {
-                violate(
-                    ctx,
-                    "C04/not-usable-after-faults",
-                    "same-tsi-after-payload-corruption",
-                    format!(
-                        "{} packets of the session with an altered payload were accepted (nothing else), the MD5 check is on: toi={} was not delivered by two complete retransmissions of the valid session on the same TSI",
-                        p.accepted_faulty, o.toi
-                    ),
-                );
             }
         }
     }
